@@ -3273,7 +3273,7 @@ class FST:
             options['trivia'] = (False, False)
 
         if reput and has_docstr:  # if user wants to re-put then delete old one first
-            self._put_slice(None, 0, 1, 'body', False, options)
+            self._put_slice(None, 0, 1, 'body', False, dict(options, norm_self=False))  # body may be temporarily empty, will be refilled right below
 
             has_docstr = False
 
